@@ -46,6 +46,11 @@ pub struct GraphSpec {
     pub calls: Vec<EdgeCall>,
     /// informational: generator family
     pub family: String,
+    /// how the graph value that is run came to be: 0 = straight from `build()`,
+    /// 1 = `built.clone()`, 2 = `scratch.clone_from(&built)` where scratch was built from
+    /// a variant of this spec (other edges and declarations, one function fewer),
+    /// 3 = `FnGraph::new()` then `clone_from(&built)`
+    pub provenance: u8,
 }
 
 #[derive(Clone, Copy, Debug, PartialEq, Eq, PartialOrd, Ord, Hash)]
@@ -469,6 +474,7 @@ impl GraphSpec {
     pub fn to_json(&self) -> Value {
         json!({
             "family": self.family,
+            "provenance": self.provenance,
             "fns": self.fns.iter().enumerate().map(|(i, f)| json!({
                 "id": i, "reads": types_to_json(f.reads), "writes": types_to_json(f.writes), "list_style": f.style, "private_types": f.own
             })).collect::<Vec<_>>(),
@@ -482,6 +488,7 @@ impl GraphSpec {
     pub fn from_json(v: &Value) -> Option<Self> {
         let mut g = GraphSpec::default();
         g.family = v.get("family").and_then(|x| x.as_str()).unwrap_or("").to_string();
+        g.provenance = v.get("provenance").and_then(|x| x.as_u64()).unwrap_or(0) as u8;
         for f in v.get("fns")?.as_array()? {
             g.fns.push(FnDecl {
                 reads: types_from_json(f.get("reads")?)?,
